@@ -91,6 +91,20 @@ def check_treeinfo(ctx, pmt, D, order_seed, tmpdir):
                       case, observed=probs, expected="no difference", key=key_ti(D, probs))
     try:
         ti2 = pmt.TreeInfo()
+        # the reader object is not always pristine: the caller looked at its (still empty) header, or it refused an empty /
+        # truncated file a moment ago
+        reader = order_seed % 4
+        if reader == 1:
+            ti2.header.version_tuple
+            ti2.header.version
+            ctx.count("reader-header-inspected-before-load")
+        elif reader == 2:
+            for junk in ("", "[header]\nversion = 1.2\n"):
+                try:
+                    ti2.loads(junk)
+                except Exception:
+                    pass
+            ctx.count("reader-refused-a-truncated-file-before")
         ti2.loads(t1)
         obs, structural = F.observe(ti2)
         diffs = structural + _diff(E, obs)
@@ -301,6 +315,34 @@ def check_discinfo(ctx, pmd, d, tmpdir):
     if problems:
         ctx.violation("di-M5-file", "dump(path)/load(path) equals the string round trip", case, observed=problems,
                       expected="no difference", key=key_di(d, problems))
+    # di-M6: the re-read object is edited IN PLACE (its disc list is a list the caller may change) and written again; the
+    # file it was read from still reads as before, also afterwards
+    import copy
+    d2 = copy.deepcopy(d)
+    new_numbers = [1, 2] if d["disc_numbers"] != [1, 2] else [3]
+    d2["disc_numbers"] = list(new_numbers)
+    d2["description"] = d["description"] + " (respin)"
+    probs = []
+    try:
+        di2.disc_numbers[:] = new_numbers
+        di2.description = d2["description"]
+        t3 = di2.dumps()
+        di4 = pmd.DiscInfo()
+        di4.loads(t3)
+        probs = _diff(d2, F.observe_discinfo(di4))
+        di5 = pmd.DiscInfo()
+        di5.loads(t1)
+        probs += ["the ORIGINAL file, read again after another object was edited: " + x for x in _diff(d, F.observe_discinfo(di5))]
+        fresh = F.build_discinfo(pmd, d)
+        if fresh.dumps() != t1:
+            probs.append("a freshly built object of the original description no longer writes the original text")
+    except Exception as e:
+        probs.append("raised %s: %s" % (type(e).__name__, str(e)[:200]))
+    ctx.count("di-edited-in-place-after-reload" + ("-was-ALL" if d["disc_numbers"] == ["ALL"] else ""))
+    ctx.monitor("di-M6-edited-after-reload", fired=bool(probs))
+    if probs:
+        ctx.violation("di-M6-edited-after-reload", "a re-read .discinfo that is edited and written again is read back as edited; other "
+                      "objects and files are not affected", dict(case, edited_to=d2), observed=probs[:6], expected="no difference")
     return True
 
 
